@@ -128,7 +128,7 @@ Definition api_step (r:rnode) (a:api) : rnode * list event :=
     if negb (is_active_node (rn r)) then (r, []) else send_heartbeat_api force (length (n_devs (rn r))) r 0
   | ASendHeartbeatDev idev =>
     (* SetHeartbeat(N2kMsg, Devices[iDev].HeartbeatScheduler.GetPeriod(), 0xff) is evaluated before SendMsg may open the node *)
-    if valid_dev r idev then
+    if is_active_node (rn r) && valid_dev r idev then
       let period := ss_period (x_hb (get_devx r idev)) in
       osend r (fun r1 => let r1 := chk_dev r1 idev in let '(r2, ev, _) := rsend r1 (heartbeat_msg (dev_src r1 idev) period 255) idev in (r2, ev))
     else (r, [])
